@@ -225,6 +225,13 @@ def known_match(finding, viol):
         elif k == "exception":
             if (viol.get("observed") or {}).get("exception") != v:
                 return False
+        elif k == "pred":
+            import importlib.util
+            sp = importlib.util.spec_from_file_location("known_preds", os.path.join(ROOT, "known_preds.py"))
+            mod = importlib.util.module_from_spec(sp)
+            sp.loader.exec_module(mod)
+            if not getattr(mod, v)(viol):
+                return False
         elif k == "why_contains":
             if v not in (viol.get("why") or ""):
                 return False
@@ -351,25 +358,33 @@ def run(a):
     missing = sorted(expected - names)
     for m in missing:
         undecided.append({"obligation": m, "why": "expected obligation no longer generated (code shape changed; contract must be revisited)"})
-    # bounded failures are concrete inputs: report each as a violation with its replay
+    # bounded failures are concrete inputs: each is a violation record; replay files are written below for the ones that are reported
     for reg, b, r in bounded_results:
-        for n_, (i, case, res) in enumerate(r["fails"][:200]):
-            os.makedirs(replay_dir, exist_ok=True)
-            path = os.path.join(replay_dir, _safe("%s-%d-%d" % (b["name"], i, n_)) + ".json")
-            json.dump({"property": pid, "obligation": "bounded:" + b["name"], "function": b.get("contract") or b.get("label"),
-                       "inputs": concretise.jsonable(case), "clause": res.get("clause"), "observed": res.get("observed"), "why": res.get("why")},
-                      open(path, "w"), indent=1, default=str)
-            violations.append({"property": pid, "obligation": "bounded:" + b["name"], "replay": path, "witness": concretise.jsonable(case),
-                               "clause": res.get("clause"), "observed": res.get("observed"), "why": res.get("why")})
+        for n_, (i, case, res) in enumerate(r["fails"]):
+            violations.append({"property": pid, "obligation": "bounded:" + b["name"], "replay": None, "witness": concretise.jsonable(case),
+                               "clause": res.get("clause"), "observed": res.get("observed"), "why": res.get("why"),
+                               "_file": _safe("%s-%d-%d" % (b["name"], i, n_)) + ".json", "_function": b.get("contract") or b.get("label")})
 
     # ---- known findings -----------------------------------------------------------------------------
     new_viol, known_hit = [], []
+    per_known = {}
     for v in violations:
         f = next((f for f in known["findings"] if known_match(f, v)), None)
         if f is not None:
             known_hit.append((f, v))
+            per_known[f.get("what")] = per_known.get(f.get("what"), 0) + 1
+            write = per_known[f.get("what")] <= 2
         else:
             new_viol.append(v)
+            write = len(new_viol) <= 40
+        if v.get("replay") is None:
+            path = os.path.join(replay_dir, v.pop("_file"))
+            v["replay"] = path
+            if write:
+                os.makedirs(replay_dir, exist_ok=True)
+                json.dump({"property": pid, "obligation": v["obligation"], "function": v.pop("_function", None), "inputs": v["witness"],
+                           "clause": v.get("clause"), "observed": v.get("observed"), "why": v.get("why"),
+                           "known_finding": f.get("what") if f is not None else None}, open(path, "w"), indent=1, default=str)
 
     if a.update_expected:
         expected_all[pid] = sorted(ob.name for ob in ded if ob.result["status"] == "discharged")
